@@ -3,6 +3,7 @@ package c10
 // C10 generators for the typed-project and untyped-tree correspondence streams.
 
 import (
+	"os"
 	"math/rand"
 	"strconv"
 
@@ -436,6 +437,11 @@ func runC10Typed(ctx *core.Ctx) {
 }
 
 func runC10(ctx *core.Ctx) {
+	if os.Getenv("C10_ONLY") == "opts" { // development aid: the option-shape stream alone
+		runC10Cast(ctx)
+		runC10Opts(ctx)
+		return
+	}
 	runC10Typed(ctx)
 	runC10Tree(ctx)
 	runC10Norm(ctx)
@@ -443,5 +449,7 @@ func runC10(ctx *core.Ctx) {
 	runC10Loads(ctx)
 	runC10Glue(ctx)
 	runC10MergeValidate(ctx)
+	runC10Cast(ctx)
+	runC10Opts(ctx)
 	ctx.Res.Exhaustive = true // the small-scope streams above are enumerated completely (see design/C10.md)
 }
